@@ -325,7 +325,7 @@ func importNud(p *parser, t *token) *token {
 func commaLed(p *parser, t *token, left *token) *token {
 	t.Append(left)
 	for {
-		t.Append(p.Expression(commaBP))
+		t.Append(p.Expression(commaBP, p.mask...)) // what ends the list (the { of a for clause) also ends its last operand
 		if p.Token.Symbol != "," {
 			break
 		}
